@@ -353,9 +353,18 @@ where
     let mut len_so_far = zero;
     new_offsets.push(zero);
 
+    let nulls = array.nulls();
     offsets
         .windows(2)
-        .try_for_each(|pair| -> Result<(), ArrowError> {
+        .enumerate()
+        .try_for_each(|(idx, pair)| -> Result<(), ArrowError> {
+            // The bytes stored under a null slot are arbitrary and must not be inspected:
+            // the substring of a null is null.
+            if nulls.is_some_and(|n| n.is_null(idx)) {
+                new_starts_ends.push((pair[0], pair[0]));
+                new_offsets.push(len_so_far);
+                return Ok(());
+            }
             let new_start = match start.cmp(&zero) {
                 Ordering::Greater => check_char_boundary((pair[0] + start).min(pair[1]))?,
                 Ordering::Equal => pair[0],
